@@ -839,3 +839,69 @@ Proof.
   - rewrite (ast_unset_absent_id _ _ _ Eu). destruct H as [H|H]; rewrite H; reflexivity.
   - destruct H as [H|H]; rewrite H; reflexivity.
 Qed.
+
+(* ================= histories ================= *)
+Lemma ast_step_type front v o : type_of (ast_step front v o) = type_of v.
+Proof.
+  destruct o as [p x|p]; cbn [ast_step].
+  - destruct (ast_set front p x v) as [[v' ex]|] eqn:E; [eapply ast_set_type; exact E|reflexivity].
+  - destruct (ast_unset p v) as [v' r|] eqn:E; [eapply ast_unset_type; exact E|reflexivity].
+Qed.
+
+Lemma unset_dom_nonempty p v : unset_dom p v = true -> p <> [].
+Proof. destruct p; [discriminate|discriminate]. Qed.
+
+(* one step: the byte-level operation on the encoding of v yields the encoding of the spec's next state *)
+Theorem bytes_step_refines v o : wf v = true -> op_dom v o = true ->
+  bytes_step (type_of v, encode v) o = (type_of (ast_step true v o), encode (ast_step true v o)).
+Proof.
+  intros Hw Hd. rewrite ast_step_type. unfold op_dom in Hd. apply andb_true_iff in Hd. destruct Hd as [Hdp Hd].
+  apply Nat.leb_le in Hdp. destruct o as [p x|p].
+  - destruct (and4_inv _ _ _ _ Hd) as [Hp [Hx [Hc Hsd]]].
+    destruct p as [|s p']; [discriminate Hp|]. cbn [bytes_step ast_step].
+    rewrite (set_refines (s :: p') x v Hw Hdp ltac:(discriminate) Hsd).
+    destruct (ast_set true (s :: p') x v) as [[v' ex]|]; reflexivity.
+  - destruct p as [|s p']; [discriminate Hd|]. cbn [bytes_step].
+    rewrite (unset_refines_bytes (s :: p') v Hw Hdp Hd). reflexivity.
+Qed.
+
+Theorem history_refines : forall ops v, wf v = true -> history_ok true v ops = true -> history_dom v ops = true ->
+  bytes_states (type_of v, encode v) ops = map (fun s => (type_of s, encode s)) (ast_states true v ops) /\
+  fold_left bytes_step ops (type_of v, encode v) =
+    (type_of (fold_left (ast_step true) ops v), encode (fold_left (ast_step true) ops v)).
+Proof.
+  induction ops as [|o ops IH]; intros v Hw Hok Hd; [split; reflexivity|].
+  cbn [history_ok] in Hok. apply andb_true_iff in Hok. destruct Hok as [Hc Hok].
+  cbn [history_dom] in Hd. apply andb_true_iff in Hd. destruct Hd as [Hdo Hd].
+  pose proof (ast_step_wf true v o Hw Hc) as Hw'.
+  destruct (IH (ast_step true v o) Hw' Hok Hd) as [IH1 IH2].
+  cbn [bytes_states ast_states map fold_left]. cbv zeta. rewrite (bytes_step_refines v o Hw Hdo).
+  split; [f_equal; exact IH1|exact IH2].
+Qed.
+
+(* ================= failed operations ================= *)
+(* the byte-level set fails exactly when the spec fails; a byte-level unset that reports an error (other than
+   not-found) left the buffer as it was, and so did one that reports not-found *)
+Theorem failed_op_bytes_unchanged v : wf v = true -> (depth v <= max_skip_depth)%nat ->
+  (forall p x, p <> [] -> set_dom p v = true ->
+     (set_by_path (type_of v) (encode v) p (encode x) (type_of x) = None <-> ast_set true p x v = None)) /\
+  (forall p, unset_dom p v = true ->
+     (forall b, unset_by_path (type_of v) (encode v) p = UbErr b -> b = encode v /\ ast_unset p v = DErr) /\
+     (unset_by_path (type_of v) (encode v) p = UbNotFound -> ast_unset p v = DOk v false)) /\
+  (forall o, op_dom v o = true ->
+     match o with OSet p x => ast_set true p x v = None | OUnset p => ast_unset p v = DErr end ->
+     bytes_step (type_of v, encode v) o = (type_of v, encode v)).
+Proof.
+  intros Hw Hdp. split; [|split].
+  - intros p x Hp Hd. rewrite (set_refines p x v Hw Hdp Hp Hd).
+    destruct (ast_set true p x v) as [[v' ex]|]; split; intros H; try discriminate H; reflexivity.
+  - intros p Hd. pose proof (unset_refines p v Hw Hdp Hd) as H.
+    destruct (ast_unset p v) as [v' [|]|] eqn:Eu.
+    + split; [intros b Hb|intros Hb]; rewrite H in Hb; discriminate Hb.
+    + rewrite (ast_unset_absent_id _ _ _ Eu).
+      split; [intros b Hb; destruct H as [H|H]; rewrite H in Hb; discriminate Hb|reflexivity].
+    + split; [|intros Hb; destruct H as [H|H]; rewrite H in Hb; discriminate Hb].
+      intros b Hb. destruct H as [H|H]; rewrite H in Hb; [inversion Hb; split; reflexivity|discriminate Hb].
+  - intros o Hd Hf. rewrite (bytes_step_refines v o Hw Hd).
+    rewrite (failed_op_unchanged true v o Hf). reflexivity.
+Qed.
